@@ -164,7 +164,7 @@ func runC08(p *Program, r *Report) {
 	for _, m := range []struct {
 		r string
 		n int
-	}{{"C08.R1", 9}, {"C08.R2", 5}, {"C08.R3", 5}} {
+	}{{"C08.R1", 9}, {"C08.R2", 5}, {"C08.R3", 5}, {"C08.R6", 4}} {
 		r.Min(m.r, m.n)
 	}
 	pv := NewProv(p)
@@ -316,6 +316,7 @@ func runC08(p *Program, r *Report) {
 	}
 	// ---- R5 no self-deadlock (a hang is not a reported problem) ------------------------------------------
 	checkNoReentrantLock(p, r, "C08.R5")
+	checkTreeEmptiedOnlyOnBodyFailure(p, r, "C08.R6")
 	// ---- R4 unchecked type assertions ----------------------------------------------------
 	n := 0
 	for _, f := range fl {
@@ -573,5 +574,51 @@ func checkNullableTree(p *Program, r *Report, pv *Prov) {
 	}
 	if len(sites) == 0 {
 		r.Undec("C08.R2", "template#tree-dereferences", "", "no dereference of a template's parse tree found")
+	}
+}
+
+// checkTreeEmptiedOnlyOnBodyFailure (C08.R6): the tree of a template may be emptied only on
+// paths where the analysis of its body reported an error. A template whose body was
+// analysed without error but which ends outside the text context is a legitimate callee:
+// other templates may already have been executed with it, and text/template dereferences
+// the callee's tree without a nil test (its recover() re-panics runtime errors).
+func checkTreeEmptiedOnlyOnBodyFailure(p *Program, r *Report, rule string) {
+	et := p.Func("template", "escapeTemplate")
+	if et == nil {
+		r.Undec(rule, "template.escapeTemplate", "", "anchor not found")
+		return
+	}
+	pe := newPathExplorer(p, et)
+	var nilStores []ssa.Instruction
+	for _, st := range storesToField(et, "text/template", "Template", "Tree") {
+		if isNilConst(st.Val) {
+			nilStores = append(nilStores, st)
+		}
+	}
+	for _, st := range storesToField(et, pkgTemplate, "Template", "Tree") {
+		if isNilConst(st.Val) {
+			nilStores = append(nilStores, st)
+		}
+	}
+	n := 0
+	for _, pth := range pe.Paths() {
+		if _, ok := pth.End().(*ssa.Return); !ok {
+			continue
+		}
+		n++
+		bodyClean := pth.HasMatching(func(name string, val bool) bool {
+			return val && strings.HasPrefix(name, "(== ") && strings.Contains(name, "escapeTree(") && strings.HasSuffix(strings.Split(name, "@")[0], ".err nil)")
+		})
+		c := fmt.Sprintf("template.escapeTemplate#path[%s]#tree", shortPath(pth))
+		pos := p.Pos(pth.End().Pos())
+		if bodyClean && pathPassesAny(pth, nilStores) {
+			r.Viol(rule, c, pos, "the parse tree of a template whose body was analysed without error (it merely ends outside the text context) is emptied: templates that call it, and were executed before, dereference the nil tree inside text/template and panic",
+				`{{define "F"}}<b{{end}}{{define "A"}}{{template "F" .}} id="x">ok</b>{{end}}: ExecuteTemplate A (ok), ExecuteTemplate F (error), ExecuteTemplate A → nil pointer dereference`)
+		} else {
+			r.OK(rule, c, pos, "the tree is emptied only when the body analysis failed")
+		}
+	}
+	if n == 0 {
+		r.Undec(rule, "template.escapeTemplate", p.Pos(et.Pos()), "no return path found")
 	}
 }
